@@ -44,6 +44,30 @@ class Red:
         self.kind, self.arr, self.axis = kind, arr, axis
 
 
+_RED_TABLE = []
+
+
+def red_const(red):
+    """numeric / boolean stand-in for a reduction; the (constant, Red) pair is recorded so contracts can speak about the reduced array"""
+    for c, r in _RED_TABLE:
+        if r is red:
+            return c
+    k = len(_RED_TABLE)
+    if red.kind in ('all', 'any'):
+        arr = red.arr
+        if isinstance(arr, Arr) and arr.rank == 1:
+            j = z3.Int('red_j!%d' % k)
+            inside = z3.And(j >= 0, j < Z(arr.shape[0]))
+            c = z3.ForAll([j], z3.Implies(inside, B(arr.f(j)))) if red.kind == 'all' else z3.Exists([j], z3.And(inside, B(arr.f(j))))
+        else:
+            c = z3.Bool('red_%s!%d' % (red.kind, k))
+    else:
+        real = isinstance(red.arr, Arr) and red.arr.dtype == 'float'
+        c = (z3.Real if real else z3.Int)('red_%s!%d' % (red.kind, k))
+    _RED_TABLE.append((c, red))
+    return c
+
+
 class St:
     def __init__(self, live=TRUE):
         self.live = live
@@ -101,8 +125,10 @@ class X:
         st = st or St()
         sub = St(st.live)
         env = self._bind(func, list(args), dict(kwargs or {}), self_obj, sub)
-        old = self.module
+        old, oldc = self.module, self._cur_class
         self.module = func.module
+        if func.cls is not None:
+            self._cur_class = func.cls
         self.depth += 1
         if self.depth > self.MAX_DEPTH:
             raise Unsupported('call depth')
@@ -111,6 +137,7 @@ class X:
         finally:
             self.depth -= 1
             self.module = old
+            self._cur_class = oldc
         st.raises += sub.raises; st.side += sub.side; st.effects += sub.effects
         st.live = z3.simplify(z3.And(st.live, z3.Not(z3.Or([c for c, _, _ in sub.raises] + [FALSE]))))
         ret = sub.ret
@@ -622,6 +649,10 @@ class X:
     # ---------------------------------------------------------------- operators
     def bin(self, op, a, b, st, node=None):
         ln = getattr(node, 'lineno', 0)
+        if isinstance(a, Red):
+            a = red_const(a)
+        if isinstance(b, Red):
+            b = red_const(b)
         if isinstance(a, Arr) or isinstance(b, Arr):
             if isinstance(a, Arr) and isinstance(b, Arr) and a.dtype == 'bool' and b.dtype == 'bool' \
                     and isinstance(op, (ast.Add, ast.Mult, ast.BitOr, ast.BitAnd)):
@@ -712,6 +743,10 @@ class X:
         raise Unsupported('operator %s' % type(op).__name__)
 
     def cmp(self, op, a, b, st):
+        if isinstance(a, Red):
+            a = red_const(a)
+        if isinstance(b, Red):
+            b = red_const(b)
         if isinstance(a, Arr) or isinstance(b, Arr):
             return self.lift(lambda x, y: self.cmp(op, x, y, self.lazy_st()), a, b, dtype='bool')
         if isinstance(op, (ast.In, ast.NotIn)):
@@ -948,7 +983,7 @@ class X:
                 raise Unsupported('float(str)')
             return z3.ToReal(zv) if zv.is_int() else zv
         if name == 'bool':
-            return B(args[0])
+            return B(red_const(args[0])) if isinstance(args[0], Red) else B(args[0])
         if name == 'str':
             return S(to_S(args[0]))
         if name == 'abs':
